@@ -26,6 +26,7 @@ import (
 	"google.golang.org/grpc"
 	"google.golang.org/grpc/credentials/insecure"
 
+	"github.com/temporalio/s2s-proxy/config"
 	vrt "github.com/temporalio/s2s-proxy/internal/verifrt"
 	"github.com/temporalio/s2s-proxy/transport/grpcutil"
 )
@@ -50,6 +51,10 @@ type vfCCPeer struct {
 type vfCCScenario struct {
 	Size  int `json:"size"`
 	Depth int `json:"depth"`
+	// Real: the manager is built by the real NewGRPCMuxManager (mux-client definition: the real establisher over
+	// the in-memory network, the per-session gRPC server and yamux observer, the listener wiring of
+	// grpc_mux_manager.go); otherwise NewCustomMultiMuxManager over a harness connProvider.
+	Real bool `json:"real,omitempty"`
 }
 
 type vfCCJob struct {
@@ -63,6 +68,7 @@ type vfCCExec struct {
 	mm       *multiMuxManager
 	mcc      *grpcutil.MultiClientConn
 	cp       *vfConnProvider
+	fn       *vfFakeNet
 	cancel   context.CancelFunc
 	peers    []*vfCCPeer
 	idToPeer map[string]int
@@ -92,6 +98,19 @@ func vfNewCCExec(sc vfCCScenario) *vfCCExec {
 		panic(err)
 	}
 	e.mcc = mcc
+	if sc.Real {
+		e.fn = vfNewFakeNet()
+		vrt.SetFakeNet(&vrt.FakeNet{Dial: e.fn.dial, Listen: e.fn.listen})
+		cd := config.ClusterDefinition{ConnectionType: config.ConnTypeMuxClient, MuxCount: sc.Size,
+			MuxAddressInfo: config.TCPTLSInfo{ConnectionString: "verif-peer:7233"}}
+		mm, err := NewGRPCMuxManager(lifetime, "verif", cd, mcc, grpc.NewServer(), logger)
+		if err != nil {
+			panic(err)
+		}
+		e.mm = mm.(*multiMuxManager)
+		e.mm.muxProvider.Start()
+		return e
+	}
 	builder := func(add AddNewMux, ctx context.Context) (MuxProvider, error) {
 		e.cp = &vfConnProvider{lifetime: ctx, offers: make(chan vfOffer)}
 		sessionFn := func(conn net.Conn) (*yamux.Session, error) { return yamux.Client(conn, vfYamuxConfig()) }
@@ -120,7 +139,7 @@ func (e *vfCCExec) add() {
 	before := e.liveIDs()
 	e.peers = append(e.peers, p)
 	e.logf("session to %s offered", p.name)
-	e.cp.offers <- vfOffer{conn: a}
+	e.offers() <- vfOffer{conn: a}
 	synctest.Wait()
 	for _, id := range e.liveIDs() {
 		found := false
@@ -133,6 +152,20 @@ func (e *vfCCExec) add() {
 			e.idToPeer[id] = i
 		}
 	}
+}
+
+func (e *vfCCExec) waiting() bool {
+	if e.fn != nil {
+		return e.fn.waiting
+	}
+	return e.cp.waiting
+}
+
+func (e *vfCCExec) offers() chan vfOffer {
+	if e.fn != nil {
+		return e.fn.offers
+	}
+	return e.cp.offers
 }
 
 func (e *vfCCExec) liveIDs() []string {
@@ -209,7 +242,7 @@ func (e *vfCCExec) rpc() {
 
 func (e *vfCCExec) enabled() []string {
 	var out []string
-	if e.cp.waiting && len(e.peers) < e.sc.Size+2 {
+	if e.waiting() && len(e.peers) < e.sc.Size+2 {
 		out = append(out, "add")
 	}
 	for _, id := range e.liveIDs() {
@@ -228,7 +261,7 @@ func (e *vfCCExec) apply(a string) error {
 	f := strings.SplitN(a, ":", 2)
 	switch f[0] {
 	case "add":
-		if !e.cp.waiting {
+		if !e.waiting() {
 			return fmt.Errorf("action %s not enabled", a)
 		}
 		e.add()
@@ -258,7 +291,7 @@ func (e *vfCCExec) apply(a string) error {
 
 func (e *vfCCExec) key() string {
 	var sb strings.Builder
-	fmt.Fprintf(&sb, "live=%v waiting=%v rpcs=%d|", e.liveIDs(), e.cp.waiting, e.rpcs)
+	fmt.Fprintf(&sb, "live=%v waiting=%v rpcs=%d|", e.liveIDs(), e.waiting(), e.rpcs)
 	for i, p := range e.peers {
 		fmt.Fprintf(&sb, "%d:%v,", i, p.killed)
 	}
@@ -291,7 +324,7 @@ func vfRunCC(t *testing.T, job *vfCCJob) (out vfPoolOut) {
 				out.Enabled = e.enabled()
 				// closing: a call in the state reached, then (if nothing is live) a new session appears and calls resume
 				e.rpc()
-				if len(e.livePeerNames()) == 0 && e.cp.waiting {
+				if len(e.livePeerNames()) == 0 && e.waiting() {
 					e.add()
 					synctest.Wait()
 					e.consistency("after a new session appeared")
@@ -306,6 +339,7 @@ func vfRunCC(t *testing.T, job *vfCCJob) (out vfPoolOut) {
 			}
 			time.Sleep(2 * time.Minute)
 			synctest.Wait()
+			vrt.SetFakeNet(nil)
 			out.Viol = e.viol
 			out.Outcome = fmt.Sprintf("peers=%d rpcs=%d", len(e.peers), e.rpcs)
 			if job.Trace || len(e.viol) > 0 {
@@ -350,9 +384,9 @@ func TestVerifC11(t *testing.T) {
 		t.Logf("replay: %+v", out)
 		return
 	}
-	sc := vfCCScenario{Size: 2, Depth: 5}
+	scs := []vfCCScenario{{Size: 2, Depth: 5}, {Size: 2, Depth: 4, Real: true}}
 	if vrt.Thorough() {
-		sc = vfCCScenario{Size: 3, Depth: 7}
+		scs = []vfCCScenario{{Size: 3, Depth: 7}, {Size: 3, Depth: 6, Real: true}}
 	}
 	pool := vrt.NewPool("TestVerifC11", vrt.Workers(), 120*time.Second)
 	deadline := vrt.Deadline()
@@ -360,66 +394,76 @@ func TestVerifC11(t *testing.T) {
 		path    []string
 		enabled []string
 	}
-	seen := map[[20]byte]bool{}
 	var harnessErrs []string
-	transitions := 0
+	transitions, states, d := 0, 0, 0
 	exhaustive := true
 	outcomes := map[string]bool{}
-	mk := func(p []string) string { b, _ := json.Marshal(vfCCJob{Sc: sc, Path: p}); return string(b) }
-	handle := func(path []string, r vrt.JobResult) *node {
-		if r.Crashed || r.TimedOut {
-			harnessErrs = append(harnessErrs, fmt.Sprintf("worker crashed=%v timedOut=%v on %v: %.300s", r.Crashed, r.TimedOut, path, r.Stderr))
-			return nil
-		}
-		var out vfPoolOut
-		if err := json.Unmarshal([]byte(r.Out), &out); err != nil {
-			harnessErrs = append(harnessErrs, "bad output "+r.Out)
-			return nil
-		}
-		for _, v := range out.Viol {
-			res.Violate(v.Signature, fmt.Sprintf("pool size %d, actions %v: %s\ntrace:\n  %s", sc.Size, path, v.Detail, strings.Join(out.Events, "\n  ")), vfCCJob{Sc: sc, Path: path})
-		}
-		if out.Err != "" && !strings.Contains(out.Err, "blocked goroutines remain") {
-			harnessErrs = append(harnessErrs, fmt.Sprintf("%s on %v", out.Err, path))
-			return nil
-		}
-		outcomes[out.Outcome] = true
-		hk := sha1.Sum([]byte(out.Key))
-		if seen[hk] {
-			return nil
-		}
-		seen[hk] = true
-		return &node{path, out.Enabled}
-	}
-	frontier := []*node{}
-	if n0 := handle(nil, pool.Map([]string{mk(nil)}, nil)[0]); n0 != nil {
-		frontier = append(frontier, n0)
-	}
-	d := 0
-	for d = 1; d <= sc.Depth && len(frontier) > 0; d++ {
-		if time.Now().After(deadline) {
-			exhaustive = false
-			break
-		}
-		var jobs []string
-		var paths [][]string
-		for _, nd := range frontier {
-			for _, a := range nd.enabled {
-				p := append(append([]string(nil), nd.path...), a)
-				paths = append(paths, p)
-				jobs = append(jobs, mk(p))
+	var summary []string
+	var sc vfCCScenario
+	for _, sc = range scs {
+		seen := map[[20]byte]bool{}
+		mk := func(p []string) string { b, _ := json.Marshal(vfCCJob{Sc: sc, Path: p}); return string(b) }
+		handle := func(path []string, r vrt.JobResult) *node {
+			if r.Crashed || r.TimedOut {
+				harnessErrs = append(harnessErrs, fmt.Sprintf("worker crashed=%v timedOut=%v on %v: %.300s", r.Crashed, r.TimedOut, path, r.Stderr))
+				return nil
 			}
-		}
-		var next []*node
-		for i, r := range pool.Map(jobs, nil) {
-			transitions++
-			if nd := handle(paths[i], r); nd != nil {
-				next = append(next, nd)
+			var out vfPoolOut
+			if err := json.Unmarshal([]byte(r.Out), &out); err != nil {
+				harnessErrs = append(harnessErrs, "bad output "+r.Out)
+				return nil
 			}
+			for _, v := range out.Viol {
+				res.Violate(v.Signature, fmt.Sprintf("pool size %d, actions %v: %s\ntrace:\n  %s", sc.Size, path, v.Detail, strings.Join(out.Events, "\n  ")), vfCCJob{Sc: sc, Path: path})
+			}
+			if out.Err != "" && !strings.Contains(out.Err, "blocked goroutines remain") {
+				harnessErrs = append(harnessErrs, fmt.Sprintf("%s on %v", out.Err, path))
+				return nil
+			}
+			outcomes[out.Outcome] = true
+			hk := sha1.Sum([]byte(out.Key))
+			if seen[hk] {
+				return nil
+			}
+			seen[hk] = true
+			return &node{path, out.Enabled}
 		}
-		frontier = next
+		frontier := []*node{}
+		if n0 := handle(nil, pool.Map([]string{mk(nil)}, nil)[0]); n0 != nil {
+			frontier = append(frontier, n0)
+		}
+		for d = 1; d <= sc.Depth && len(frontier) > 0; d++ {
+			if time.Now().After(deadline) {
+				exhaustive = false
+				break
+			}
+			var jobs []string
+			var paths [][]string
+			for _, nd := range frontier {
+				for _, a := range nd.enabled {
+					p := append(append([]string(nil), nd.path...), a)
+					paths = append(paths, p)
+					jobs = append(jobs, mk(p))
+				}
+			}
+			var next []*node
+			for i, r := range pool.Map(jobs, nil) {
+				transitions++
+				if nd := handle(paths[i], r); nd != nil {
+					next = append(next, nd)
+				}
+			}
+			frontier = next
+		}
+		states += len(seen)
+		fam := "harness connProvider"
+		if sc.Real {
+			fam = "NewGRPCMuxManager (real establisher, in-memory network)"
+		}
+		summary = append(summary, fmt.Sprintf("%s, pool size %d: %d states to depth %d", fam, sc.Size, len(seen), d-1))
 	}
-	res.Set("states", int64(len(seen)))
+	res.Set("states", int64(states))
+	res.Set("scenarios", summary)
 	res.Set("transitions", int64(transitions))
 	res.Set("traces_validated_against_impl", int64(transitions))
 	res.Set("depth_completed", int64(d-1))
@@ -428,7 +472,7 @@ func TestVerifC11(t *testing.T) {
 	res.Set("exhaustive", exhaustive && len(harnessErrs) == 0)
 	res.Set("harness_errors", harnessErrs)
 	res.Set("alphabet", "add (new yamux session with a gRPC echo server behind it), closeLocal(id), killPeer(i), rpc (DescribeCluster, up to 3 tries of 2 s each 2 s apart); after every path a closing rpc and, if nothing is live, a new session followed by an rpc")
-	res.Set("explanation", "every transition runs the real multiMuxManager (listener = real MultiClientConn.OnConnectionListUpdate), real yamux and a real grpc.ClientConn/Server pair in a synctest bubble; after every action the dialable endpoint set is compared with the registered sessions and CanMakeCalls; no separate model")
-	res.Sample(map[string]any{"pool_size": sc.Size, "states": len(seen)})
+	res.Set("explanation", "every transition runs the real multiMuxManager (listener = real MultiClientConn.OnConnectionListUpdate; second family: built by the real NewGRPCMuxManager with the real establisher over an in-memory network), real yamux and a real grpc.ClientConn/Server pair in a synctest bubble; after every action the dialable endpoint set is compared with the registered sessions and CanMakeCalls; no separate model")
+	res.Sample(map[string]any{"pool_size": sc.Size, "states": states})
 	res.Assume("gRPC and yamux internals run free (in virtual time) between actions; a call is given 3 tries within 10 s of virtual time before 'fails although a session is live' is reported")
 }
